@@ -8,7 +8,7 @@ from props.common import *
 from props.parts.c02_threefish import ref_enc as _tf_enc
 
 ID = 'C12'
-LEAN_PROOFS = ['Proofs.C12']
+LEAN_PROOFS = ['Proofs.C12', 'Proofs.C12_Kat']
 GEN_ITEMS = ['Threefish']
 RULE = ('op lines = Skein(Nb,No,key,prs,PK,kdf,nonce[,tree Yl Yf Ym])(M,L): Nb in {256,512,1024}; No multiples of 8 up to 4*Nb incl. > Nb; '
         '|M| in every residue mod Nb/8 and 0..4 blocks; every L mod 8; key absent/empty/short/one block/longer; prs/PK/kdf/nonce strings; '
@@ -16,7 +16,7 @@ RULE = ('op lines = Skein(Nb,No,key,prs,PK,kdf,nonce[,tree Yl Yf Ym])(M,L): Nb i
         'start positions around 2^32, 2^64, 2^96 and flagged tweaks; Tweak setters; malformed parameters; distinct lines; '
         'non-trivial = the implementation returned a value')
 TRUSTED = ['Spec.Skein / Spec.Threefish are renderings of the Skein 1.3 text; there is no executable Skein oracle offline: the Spec rests on the text, '
-           'on the eleven published vectors of tests/test_skein.py (replayed in the stream) and on agreement with the independent Python reference',
+           'on the eleven published vectors of tests/test_skein.py (replayed in the stream), on five published digests checked IN THE KERNEL (Proofs.C12_Kat: Skein-256/512/1024 of the empty message, Skein-256/512 of FF, lifted to the model by skein_refines) and on agreement with the independent Python reference',
            'CPython bytes/int/BytesIO semantics are modelled (Model.Skein), validated by this stream']
 ASSUMPTIONS = ['schema b"SHA3" and version 1 (the defaults) only', 'bit lengths beyond the message (L > 8|M|) are compared code<->model only (the specification does not define them)',
                'non-byte-aligned No (not in the property) is compared code<->model<->spec on the byte count only',
